@@ -7,7 +7,7 @@
    Division by zero is an explicit result (C02_DivByZero), never a number. *)
 From Coq Require Import ZArith.
 From mathcomp Require Import all_ssreflect all_algebra.
-From DuneV Require Import Params_gen C02_Model C02_Spec C02_Proofs C02_Proofs_Invert C02_Proofs_Closed C02_Proofs_Diag C02_Proofs_NoPivot C02_Proofs_Audit C02_Proofs_Deep C02_Proofs_Prin C02_Proofs_Limit C02_Proofs_Alias.
+From DuneV Require Import Params_gen C02_Model C02_Spec C02_Proofs C02_Proofs_Invert C02_Proofs_Closed C02_Proofs_Diag C02_Proofs_NoPivot C02_Proofs_Audit C02_Proofs_Deep C02_Proofs_Prin C02_Proofs_Limit C02_Proofs_Alias C02_Proofs_Scale.
 Import GRing.Theory.
 Local Open Scope ring_scope.
 
@@ -195,6 +195,60 @@ Theorem C02_solve_aliased_same : forall (A : seq (seq F)) b piv, c02_rows A != 2
   c02_solve_aliased ops A b piv = c02_solve ops A b piv.
 Proof. exact (@solve_aliased_same F absr). Qed.
 
+(* ---- round 6, the MAGNITUDE dimension: scaling laws.  A' = diag(r) * A * diag(s) (c02_scale2: the transformation applied by the
+   magnitude stream of the correspondence check, there with powers of two) with non-zero r, s; dg n r = diag_mx r; every size n >= 1
+   (closed forms and LU path), every field, every absreal with the zero law, pivoting on AND off.  The OUTCOME CLASS is invariant
+   (in particular for n >= 4: FMatrixError for A' iff FMatrixError for A; a regular matrix is never reported singular because
+   its entries are small) and the results are the exactly rescaled ones:
+     solve:  x = diag(s) x'   where A x = b, A' x' = diag(r) b;      invert:  A^-1 = diag(s) A'^-1 diag(r);
+     determinant:  det A' = prod r * det A * prod s. *)
+Theorem C02_scaling_regular : forall n r s A, nzs n r -> nzs n s ->
+  (mx n (c02_scale2 ops n r s A) \in unitmx) = (mx n A \in unitmx).
+Proof. exact (@scale_unit F absr). Qed.
+Theorem C02_scaling_solve : forall n A b b' r s piv, (0 < n)%N -> c02_wfm n A -> c02_wfv n b -> c02_wfv n b' ->
+  nzs n r -> nzs n s -> cv n b' = dg n r *m cv n b ->
+  match c02_solve ops A b piv, c02_solve ops (c02_scale2 ops n r s A) b' piv with
+  | C02_Ok x, C02_Ok x' => cv n x = dg n s *m cv n x'
+  | C02_FMatrixError, C02_FMatrixError => True
+  | C02_DivByZero, C02_DivByZero => True
+  | _, _ => False
+  end.
+Proof. exact (scaling_solve absr0). Qed.
+Theorem C02_scaling_invert : forall n A r s piv, (0 < n)%N -> c02_wfm n A -> nzs n r -> nzs n s ->
+  match c02_invert ops A piv, c02_invert ops (c02_scale2 ops n r s A) piv with
+  | C02_Ok B, C02_Ok B' => mx n B = dg n s *m mx n B' *m dg n r
+  | C02_FMatrixError, C02_FMatrixError => True
+  | C02_DivByZero, C02_DivByZero => True
+  | _, _ => False
+  end.
+Proof. exact (scaling_invert absr0). Qed.
+(* determinant, whenever the elimination that is asked for is defined (pivoting, or closed form, or non-zero leading minors) *)
+Theorem C02_scaling_det : forall n A r s (piv : bool), (0 < n)%N -> c02_wfm n A -> nzs n r -> nzs n s ->
+  [\/ piv, (n <= 3)%N | minors_nz n (mx n A)] ->
+  c02_determinant ops A piv = C02_Ok (\det (mx n A)) /\
+  c02_determinant ops (c02_scale2 ops n r s A) piv
+    = C02_Ok ((\prod_(i < n) nth 0 r i) * \det (mx n A) * (\prod_(i < n) nth 0 s i)).
+Proof. exact (scaling_det absr0). Qed.
+(* the scalar multiple c*A (c02_scale), same right-hand side:  singular(c*A) <-> singular(A),  solve(c*A, b) = c^-1 solve(A, b),
+   invert(c*A) = c^-1 invert(A),  det(c*A) = c^n det(A) *)
+Theorem C02_scaling_scalar : forall n A b c (piv : bool), (0 < n)%N -> c02_wfm n A -> c02_wfv n b -> c != 0 ->
+  [/\ (mx n (c02_scale ops n c A) \in unitmx) = (mx n A \in unitmx),
+      match c02_solve ops A b piv, c02_solve ops (c02_scale ops n c A) b piv with
+      | C02_Ok x, C02_Ok x' => cv n x' = c^-1 *: cv n x
+      | C02_FMatrixError, C02_FMatrixError => True
+      | C02_DivByZero, C02_DivByZero => True
+      | _, _ => False
+      end,
+      match c02_invert ops A piv, c02_invert ops (c02_scale ops n c A) piv with
+      | C02_Ok B, C02_Ok B' => mx n B' = c^-1 *: mx n B
+      | C02_FMatrixError, C02_FMatrixError => True
+      | C02_DivByZero, C02_DivByZero => True
+      | _, _ => False
+      end
+    & [\/ piv, (n <= 3)%N | minors_nz n (mx n A)] ->
+      c02_determinant ops (c02_scale ops n c A) piv = C02_Ok (c ^+ n * \det (mx n A))].
+Proof. exact (scaling_scalar absr0). Qed.
+
 End Statements.
 
 Print Assumptions C02_solve_sound.
@@ -229,12 +283,25 @@ Print Assumptions C02_solve_aliased_same.
 Print Assumptions C02_invert_twice.
 Print Assumptions C02_checked_singular.
 Print Assumptions C02_checked_regular.
+Print Assumptions C02_scaling_regular.
+Print Assumptions C02_scaling_solve.
+Print Assumptions C02_scaling_invert.
+Print Assumptions C02_scaling_det.
+Print Assumptions C02_scaling_scalar.
 
 (* the threshold of the optional checking mode: with the default limit of precision.hh (Params_gen.v) the test
    representative < limit is the zero test on natural-number representatives (how c02_fops reads [oabslim]) *)
 Theorem C02_limit_reading : forall r : nat, c02_zp_abslim (BinInt.Z.of_nat r) = Nat.eqb r 0.
 Proof. exact limit_reading. Qed.
 Print Assumptions C02_limit_reading.
+
+(* round 6: the per-step singularity test of luDecomposition, RE-READ from densematrix.hh on every run (comparison token and
+   threshold: Params_gen.c02_param_lu_sing_cmp / _thr), at the rational instance c02_q of the model (the instance in which
+   magnitudes exist, run against double / long double / float / complex<double> by the magnitude stream): the pivot test is
+   `= 0` and nothing else.  Any threshold (e.g. FMatrixPrecision<>::absolute_limit()) makes this theorem fail. *)
+Theorem C02_lu_pivot_test_is_zero_test : forall x : QArith_base.Q, oabsz c02_q x = QArith_base.Qeq_bool x (QArith_base.Qmake (Z.of_nat 0) (Pos.of_nat 1)).
+Proof. exact q_pivot_test_zero. Qed.
+Print Assumptions C02_lu_pivot_test_is_zero_test.
 
 (* ---- non-vacuity: the hypotheses are satisfiable by non-trivial values.  'F_7 with absr = representative. *)
 Definition c02_ex_abs7 (x : 'F_7) : nat := x.
@@ -303,4 +370,24 @@ Example C02_ex_solve_zp7 :
   | C02_Ok x => map Z.to_nat x = [:: 1; 0; 6; 1]%N
   | _ => False
   end.
+Proof. by vm_compute. Qed.
+
+(* round 6: a perfectly conditioned 4x4 with tiny entries (2^-300 * A, A with two row swaps, det A = -22) at the rational instance: solve / invert succeed, the determinant is 2^-1200 * det A, and the results
+   are those of A rescaled; the scaled unit-upper-triangular example diag-scaled by (2^-300, 1, 1, 2^300) has determinant 1. *)
+Definition c02_ex_qm (l : seq (seq nat)) : seq (seq QArith_base.Q) := map (map (fun k => QArith_base.inject_Z (Z.of_nat k))) l.
+Definition c02_ex_QA := c02_ex_qm [:: [:: 0; 1; 2; 3]; [:: 1; 0; 3; 4]; [:: 2; 2; 0; 1]; [:: 5; 1; 1; 0]]%N.
+Definition c02_ex_tiny : QArith_base.Q := QArith_base.Qmake (Z.of_nat 1) (Pos.pow (Pos.of_nat 2) (Pos.of_nat 300)).
+Definition c02_ex_huge : QArith_base.Q := QArith_base.inject_Z (Z.pow (Z.of_nat 2) (Z.of_nat 300)).
+Definition c02_ex_qb := map (fun k => QArith_base.inject_Z (Z.of_nat k)) [:: 1; 2; 3; 4]%N.
+Example C02_ex_tiny_entries_Q :
+  match c02_solve c02_q c02_ex_QA c02_ex_qb true, c02_solve c02_q (c02_scale c02_q 4 c02_ex_tiny c02_ex_QA) c02_ex_qb true with
+  | C02_Ok x, C02_Ok x' => x' = map (fun v => QArith_base.Qmult c02_ex_huge v) x /\ size x = 4%N
+  | _, _ => False
+  end /\
+  c02_determinant c02_q (c02_scale c02_q 4 c02_ex_tiny c02_ex_QA) true
+    = C02_Ok (QArith_base.Qmake (Z.opp (Z.of_nat 11)) (Pos.pow (Pos.of_nat 2) (Pos.of_nat 1199))) /\
+  c02_determinant c02_q (c02_scale2 c02_q 4 (nseq 4 (QArith_base.inject_Z (Z.of_nat 1))) [:: c02_ex_tiny; QArith_base.inject_Z (Z.of_nat 1); QArith_base.inject_Z (Z.of_nat 1); c02_ex_huge]
+                          (c02_ex_qm [:: [:: 1; 2; 3; 1]; [:: 0; 1; 1; 2]; [:: 0; 0; 1; 3]; [:: 0; 0; 0; 1]]%N)) true
+    = C02_Ok (QArith_base.inject_Z (Z.of_nat 1)) /\
+  oabsz c02_q c02_ex_tiny = false.
 Proof. by vm_compute. Qed.
